@@ -458,6 +458,22 @@ static void exec_op(std::vector<std::string> const& t, std::string const& line)
     try { Guard g{&it->second.e}; throw 42; } catch (int) {}
     g_exps.erase(it);
   }
+  else if (op == "rmexpc")
+  {
+    // the expectation's lifetime ends inside an exception handler (clean-up in a catch block)
+    auto it = g_exps.find(I(1));
+    if (it == g_exps.end()) bad("rmexpc", line);
+    try { throw 45; } catch (int) { it->second.e.reset(); }
+    g_exps.erase(it);
+  }
+  else if (op == "rmobjc")
+  {
+    auto it = g_objs.find(I(1));
+    if (it == g_objs.end()) bad("rmobjc", line);
+    Obj o = it->second;
+    g_objs.erase(it);
+    try { throw 46; } catch (int) { delete o.m; delete o.n; delete o.wm; delete o.wp; }
+  }
   else if (op == "qexp")
   {
     auto& r = g_exps.at(I(1));
@@ -468,6 +484,13 @@ static void exec_op(std::vector<std::string> const& t, std::string const& line)
   {
     // the same call, issued from inside an exception handler (std::current_exception() is non-null)
     try { throw 7; } catch (int) { do_call(I(1), t.at(2), I(3), t.size() > 4 ? I(4) : 0); }
+  }
+  else if (op == "callu")
+  {
+    // the same call, issued from a destructor that runs during stack unwinding of an unrelated exception. Only
+    // generated for calls that are accepted and return normally (anything else would have to throw out of a destructor).
+    struct Guard { int o; std::string fn; int a; int b; ~Guard() { do_call(o, fn, a, b); } };
+    try { Guard g{I(1), t.at(2), I(3), t.size() > 4 ? I(4) : 0}; throw 47; } catch (int) {}
   }
   else if (op == "tr")
   {
